@@ -952,7 +952,15 @@ impl Adapter for Hyrax {
             p.pop();
             return true;
         }
-        let idx = if kind.starts_with("replace:") || kind == "zlen" { 0usize.max(0) } else { 0 };
+        // replacements with k = 1 act on the LAST entry (the last polynomial's proof), which must be another one
+        let idx = if kind.starts_with("replace:") && k == 1 {
+            if p.len() < 2 {
+                return false;
+            }
+            p.len() - 1
+        } else {
+            0
+        };
         if p.len() <= idx {
             return false;
         }
@@ -966,6 +974,13 @@ impl Adapter for Hyrax {
                     return false;
                 }
                 e.z[0] = FrEd::rand(rng);
+            }
+            "replace:z_last" => {
+                if e.z.len() < 2 {
+                    return false;
+                }
+                let n = e.z.len();
+                e.z[n - 1] = FrEd::rand(rng);
             }
             "replace:z_d" => e.z_d = FrEd::rand(rng),
             "replace:z_b" => e.z_b = FrEd::rand(rng),
@@ -1111,7 +1126,16 @@ pub fn lincode_proof_mutation(
     if p.is_empty() {
         return false;
     }
-    let (mut paths, mut v, mut cols, mut wf) = lc::proof_parts(&p[0]);
+    // replacements with k = 1 act on the LAST entry (the last polynomial's proof), which must be another one
+    let ei = if (kind.starts_with("replace:") || kind.starts_with("sibling:") || kind.starts_with("authpath:")) && k == 1 {
+        if p.len() < 2 {
+            return false;
+        }
+        p.len() - 1
+    } else {
+        0
+    };
+    let (mut paths, mut v, mut cols, mut wf) = lc::proof_parts(&p[ei]);
     match kind {
         "replace:v0" => {
             if v.is_empty() {
@@ -1253,7 +1277,7 @@ pub fn lincode_proof_mutation(
         }
         _ => return false,
     }
-    p[0] = lc::proof_from_parts(paths, v, cols, wf);
+    p[ei] = lc::proof_from_parts(paths, v, cols, wf);
     true
 }
 
